@@ -137,6 +137,32 @@ def rule_a(ctx: Context, R: Reporter, fit: FuncInfo):
             lo, hi = const_value(c.args[1]), const_value(c.args[2])
             ok = isinstance(lo, (int, float)) and isinstance(hi, (int, float)) and 0 < lo < hi
             R.check("C19.a", "the root search for nu uses a positive bracket", ok, fit, c, msg=f"{fit.short}: bracket ({unparse(c.args[1])}, {unparse(c.args[2])})", key="nu-bracket")
+            # a sign change over the bracket is what bisect requires (it raises otherwise):
+            #  * upper end: the enclosing guard has tested the same function at the same point (f(hi) < 0 here);
+            #  * lower end: deep in the asymptotic regime of the digamma pole (-psi(nu/2) ~ 2/nu dominates every
+            #    data term, which is bounded by ~ d/nu_min and a few hundred in logs), i.e. lo <= 1e-100
+            host = next((sub for sub in list(fit.nested.values()) + [fit] if any(c is x for x in calls_in(sub.node))), fit)
+            hflow = flow_of(host.node)
+            hn = hflow.node_containing(c)
+            from ..util import conds_holding_at as _cha
+            from ..util import split_cond as _split
+
+            fname = norm_text(c.args[0])
+            hi_ok = False
+            for (t, pol) in (_cha(hflow.cfg, hn) if hn is not None else []):
+                for (atom, p) in _split(t, pol):
+                    if isinstance(atom, ast.Compare) and len(atom.ops) == 1 and isinstance(atom.left, ast.Call) and norm_text(atom.left.func) == fname and atom.left.args \
+                            and const_value(atom.left.args[0]) == hi and const_value(atom.comparators[0]) in (0, 0.0):
+                        op = type(atom.ops[0]).__name__
+                        if (op in ("GtE", "Gt") and p is False) or (op in ("Lt", "LtE") and p is True):
+                            hi_ok = True
+            R.check("C19.a", "the sign of the objective at the bracket's upper end is established by the enclosing guard", hi_ok, fit, c,
+                    msg=f"{fit.short}: `{unparse(c)[:60]}` is not guarded by a test of `{fname}({unparse(c.args[2])})` against 0: without a sign change over the bracket the "
+                        f"root finder raises instead of returning a value", key="nu-bracket-upper-sign")
+            lo_ok = isinstance(lo, (int, float)) and 0 < lo <= 1e-100
+            R.check("C19.a", "the bracket's lower end lies in the regime where the objective is positive for every data set", lo_ok, fit, c,
+                    msg=f"{fit.short}: lower bracket end {unparse(c.args[1])}: the objective is only guaranteed positive as nu -> 0+ (digamma pole); at a moderate lower end a heavy-tailed "
+                        f"or contaminated data set has its root below the bracket and the root finder raises (the fit does not return)", key="nu-bracket-lower-regime")
 
 
 def rule_b(ctx: Context, R: Reporter, fit: FuncInfo):
@@ -256,6 +282,10 @@ def variants():
     from .c14 import _drop_dof_guard
 
     return [
+        Variant("a-bracket-lower-moderate", "bad", replace_expr(st, "fit_mvstud", "optimize.bisect(func0, 1e-300, 1e300)", "optimize.bisect(func0, 1e-3, 1e300)"), ["C19.a"], quick=True),
+        Variant("a-bracket-upper-unguarded", "bad", replace_expr(st, "fit_mvstud", "optimize.bisect(func0, 1e-300, 1e300)", "optimize.bisect(func0, 1e-300, 1e6)"), ["C19.a"]),
+        Variant("a-bracket-lower-still-tiny-benign", "benign", replace_expr(st, "fit_mvstud", "optimize.bisect(func0, 1e-300, 1e300)", "optimize.bisect(func0, 1e-200, 1e300)")),
+        Variant("b-absolute-location-tolerance", "bad", replace_expr(st, "fit_mvstud", "np.abs(last_nu - nu) > tolerance", "np.abs(last_nu - nu) > tolerance and np.max(np.abs(mu)) > tolerance"), ["C19.b"]),
         Variant("a-drop-guard-global", "bad", edit(md, "ModeStatistics.from_global", _drop_dof_guard), ["C19.a"], quick=True),
         Variant("a-guard-polarity", "bad", replace_expr(md, "ModeStatistics.from_particles", "~np.isfinite(dof)", "np.isfinite(dof)"), ["C19.a"]),
         Variant("a-trainer-drops-fallback", "bad", replace_expr("tempest/steps/train.py", "Trainer.run", "ModeStatistics.from_global(u, weights_trimmed, dof_fallback=self.DOF_FALLBACK)", "ModeStatistics.from_global(u, weights_trimmed)"), ["C19.a"], quick=True),
